@@ -77,6 +77,21 @@ func (c *spCond) walk(f func(*spCond)) {
 	}
 }
 
+// replace returns a copy of the tree in which every node satisfying pred is replaced by with
+func (c *spCond) replace(pred func(*spCond) bool, with *spCond) *spCond {
+	if pred(c) {
+		return with
+	}
+	n := *c
+	if c.L != nil {
+		n.L = c.L.replace(pred, with)
+	}
+	if c.R != nil {
+		n.R = c.R.replace(pred, with)
+	}
+	return &n
+}
+
 func (c *spCond) has(pred func(*spCond) bool) bool {
 	found := false
 	c.walk(func(n *spCond) {
@@ -200,7 +215,7 @@ type spVariant struct {
 	style     int   // 0: column op literal; 1: some comparisons flipped (literal op column) and parenthesised
 	styleSeed int64 // expression building is a function of (style, styleSeed) only
 	timeCol   int   // 1-based key column that is the time column (0 = none)
-	shielded  bool  // predictor variant: integer columns replaced by float columns with the same images
+	shielded  bool  // predictor variant: integer columns replaced by float columns
 }
 
 func (v *spVariant) describe() string {
@@ -378,7 +393,7 @@ func spRecString(rec *record.Record) (s string) {
 // concrete row-level truth (the oracle): comparisons and IN are decided on the abstract values
 // (the concretisation is an order-preserving injection); comparisons with null are false; an atom
 // on a non-key column may be true; matchphrase is decided by the real token finder of the row
-// filter; like / match with a literal equal to the whole value are true.
+// filter; like / match are true (at least) when the literal equals the whole value.
 func (v *spVariant) evalRow(c *spCond, row []int) bool {
 	switch c.T {
 	case "and":
@@ -418,16 +433,13 @@ func (v *spVariant) evalRow(c *spCond, row []int) bool {
 		if x == spNull {
 			return false
 		}
-		if x == c.V {
-			return true
-		}
-		if c.Op == "matchphrase" {
+		if c.Op == "matchphrase" { // exactly what the row filter does (GetStringMatchPhraseConditionBitMap)
 			col := v.cols[c.C-1]
 			tf := tokenizer.NewSimpleTokenFinder(tokenizer.GetFullTextOption(nil).TokensTable)
 			tf.InitInput([]byte(col.strs[x]), []byte(col.strs[c.V]))
 			return tf.Next()
 		}
-		return false
+		return x == c.V
 	case "nonkey":
 		return true
 	}
@@ -648,7 +660,8 @@ type spScanExp struct {
 	Implerr bool             `json:"implerr"`
 	Sel     map[string][]int `json:"sel"`
 	Impl    map[string][]int `json:"impl"`
-	Implo   map[string][]int `json:"implo"` // as-implemented model with no integer column
+	Implo   map[string][]int `json:"implo"`  // as-implemented model with no integer column
+	Implmp  map[string][]int `json:"implmp"` // as-implemented model without right_bound_overwrites
 }
 
 type spResult struct {
@@ -669,6 +682,7 @@ type spResult struct {
 	Exact    int               `json:"exact"`   // scans equal to the specification's selection
 	Mutated  int               `json:"mutated"` // scans that modified the index record
 	SkipEval int               `json:"skip_eval"`
+	SkipNeg  int               `json:"skip_neg"` // bloom-filter / min-max answers "cannot be in this fragment"
 	DriftEx  string            `json:"drift_ex,omitempty"`
 }
 
@@ -772,8 +786,8 @@ func spNewVariant(rng *rand.Rand, nth int, k int, ctypes []string, rows [][]int,
 }
 
 // shield: the predictor variant for finding F-C20-2 -- the same case with every integer key column
-// replaced by a float column carrying the same numbers (only integer columns are rewritten in place
-// by Range.turnOpenRangeIntoClosed)
+// replaced by a float column (only integer columns are rewritten in place by
+// Range.turnOpenRangeIntoClosed)
 func (v *spVariant) shield() *spVariant {
 	s := *v
 	s.shielded = true
@@ -782,9 +796,7 @@ func (v *spVariant) shield() *spVariant {
 		cc := *c
 		if cc.typ == influx.Field_Type_Int {
 			cc.typ = influx.Field_Type_Float
-			for i := range cc.ints {
-				cc.flts[i] = float64(cc.ints[i])
-			}
+			cc.flts = [3]float64{-1.5, 0, 2.25} // any order-preserving images: float64(int) is not injective for large integers
 			if cc.name == record.TimeField {
 				cc.name = "time_"
 			}
@@ -804,7 +816,8 @@ func (v *spVariant) shield() *spVariant {
 //          columns used, an integer column among the inner ones (2..used-1). Predictor: the index
 //          record was observably modified by the read-only Scan (or the panic is raised inside
 //          turnOpenRangeIntoClosed), and the same case with the integer columns replaced by float
-//          columns of the same values gives exactly the specification's as-implemented selection.
+//          columns gives exactly the selection the specification's as-implemented model predicts for
+//          non-integer columns.
 // F-C20-3  operators genRPNElementByOp does not know (LIKE, MATCH) append no RPN element, IN leaves
 //          a SetLiteral that convertToRPNElem cannot digest: the query fails (error or index-out-of-
 //          range panic in checkInRangeForAnd/Or) instead of selecting. Predictor: the specification's
@@ -862,7 +875,7 @@ func (x *spCtx) judge(v *spVariant, st spScanSetting, out spScanOut, match []int
 		if out.panicv != nil && strings.Contains(out.stack, "turnOpenRangeIntoClosed") && x.hasIntInner(v) {
 			s := v.shield().realScan(x.rows, x.g, x.cond, x.tb, st)
 			if !s.failed() && sameInts(s.sel, implo) {
-				r.known("F-C20-2", fmt.Sprintf("%s: %s raised in turnOpenRangeIntoClosed; with float columns of the same values the selection is %v", where, out, s.sel))
+				r.known("F-C20-2", fmt.Sprintf("%s: %s raised in turnOpenRangeIntoClosed; with float columns instead of the integer columns the selection is %v", where, out, s.sel))
 				return ""
 			}
 			shieldNote = fmt.Sprintf(" [with float columns: %s, as-implemented model without integer columns: %v]", s, implo)
@@ -886,6 +899,10 @@ func (x *spCtx) judge(v *spVariant, st spScanSetting, out spScanOut, match []int
 	}
 	r.Unsound++
 	text := fmt.Sprintf("%s: fragments %v contain matching rows but are not selected: real=%v matching=%v spec=%v as-implemented-model=%v", where, miss, out.sel, match, design, impl)
+	if implmp := x.sexp.Implmp[st.name]; !x.sexp.Implerr && x.hasMatchPhrase() && sameInts(out.sel, implmp) && !sameInts(implmp, design) {
+		r.known("F-C20-4", text) // explained by matchphrase-as-equality alone
+		return ""
+	}
 	if !x.sexp.Implerr && sameInts(out.sel, impl) && !sameInts(impl, design) {
 		mp, multi := x.hasMatchPhrase(), x.cexp.Implmaxkey >= 2
 		switch {
@@ -903,7 +920,7 @@ func (x *spCtx) judge(v *spVariant, st spScanSetting, out spScanOut, match []int
 	}
 	if out.mutated != "" && x.hasIntInner(v) {
 		if s := v.shield().realScan(x.rows, x.g, x.cond, x.tb, st); !s.failed() && s.mutated == "" && sameInts(s.sel, implo) {
-			r.known("F-C20-2", fmt.Sprintf("%s; index record modified by Scan: %s; with float columns of the same values the selection is %v", text, out.mutated, s.sel))
+			r.known("F-C20-2", fmt.Sprintf("%s; index record modified by Scan: %s; with float columns instead of the integer columns the selection is %v", text, out.mutated, s.sel))
 			return ""
 		}
 	}
@@ -1042,9 +1059,16 @@ func spSkipIndexes(x *spCtx, v *spVariant, match []int, tmp string) (viol string
 	nf := int(b.pkMark.GetFragmentCount())
 	where := fmt.Sprintf("case %d %s g=%d rows=%v cond=%s", x.caseID, v.describe(), x.g, x.rows, x.cond)
 	opt := &query.ProcessorOptions{Condition: v.expr(x.cond)}
-	// --- set index on every key column of the condition
-	{
-		rd, err := sparseindex.NewSetIndexReader(rpn.ConvertToRPNExpr(v.expr(x.cond)), b.pkSchema, opt, true)
+	// --- set index on the key columns the condition names (SKIndexReaderImpl.getSKInfoByExpr creates a reader
+	// only for index columns that occur in the condition)
+	var setSchema record.Schemas
+	for ci := range v.cols {
+		if x.full.has(func(c *spCond) bool { return (c.T == "cmp" || c.T == "strop") && c.C == ci+1 }) {
+			setSchema = append(setSchema, b.pkSchema[ci])
+		}
+	}
+	if len(setSchema) > 0 {
+		rd, err := sparseindex.NewSetIndexReader(rpn.ConvertToRPNExpr(v.expr(x.cond)), setSchema, opt, true)
 		if err == nil {
 			_ = rd.ReInit(&spMockTssp{path: filepath.Join(tmp, "x.tssp")})
 			for _, f := range match {
@@ -1098,7 +1122,31 @@ func spSkipIndexes(x *spCtx, v *spVariant, match []int, tmp string) (viol string
 				_ = os.RemoveAll(dir)
 				return fmt.Sprintf("%s: bloom filter MayBeInFragment(%d): %v", where, f, err)
 			}
+			if !ok {
+				r.SkipNeg++
+			}
 			if in, _ := subset([]int{f}, match); in && !ok {
+				// F-C20-6: a phrase without any token (the empty string): the row filter matches the rows whose
+				// value is empty, the filter reader answers "not present" whenever there is no hash to look up.
+				// Predictor: the same reader on the same file says "may be present" once those atoms are
+				// replaced by an always-true atom.
+				emptyPhrase := func(c *spCond) bool {
+					return c.T == "strop" && c.Op == "matchphrase" && c.C == ci+1 && col.strs[c.V] == ""
+				}
+				if x.full.has(emptyPhrase) {
+					c2 := x.cond.replace(emptyPhrase, &spCond{T: "nonkey"})
+					opt2 := &query.ProcessorOptions{Condition: v.expr(c2)}
+					rd2, err2 := sparseindex.NewBloomFilterIndexReader(rpn.ConvertToRPNExpr(v.expr(c2)), sch, opt2, true)
+					if err2 == nil {
+						err2 = rd2.ReInit(&spMockTssp{path: filepath.Join(dir, "m", data)})
+					}
+					if err2 == nil {
+						if ok2, err3 := rd2.MayBeInFragment(uint32(f)); err3 == nil && ok2 {
+							r.known("F-C20-6", fmt.Sprintf("%s: bloom filter on %s: fragment %d contains a row matching the empty phrase, MayBeInFragment says false", where, col.name, f))
+							continue
+						}
+					}
+				}
 				_ = os.RemoveAll(dir)
 				return fmt.Sprintf("%s: bloom filter on %s: fragment %d contains a matching row, MayBeInFragment says false (matching=%v)", where, col.name, f, match)
 			}
@@ -1117,6 +1165,14 @@ func spSkipIndexes(x *spCtx, v *spVariant, match []int, tmp string) (viol string
 func spMinMax(x *spCtx, v *spVariant, b spBuilt, match []int, where string) string {
 	if x.cexp.Maxkey != 1 || x.full.has(func(c *spCond) bool { return c.T == "nonkey" || c.T == "strop" }) {
 		return ""
+	}
+	for _, r := range x.rows {
+		if r[0] == spNull {
+			// not driven with null bounds: MayBeInFragment then assigns the shared sentinel NEGATIVE_INFINITY to
+			// the range and the next call sets ITS row (left.row = fragId), which breaks every later
+			// comparison with -infinity in the whole process (reported; the reader is not wired in production)
+			return ""
+		}
 	}
 	sch := record.Schemas{b.pkSchema[0]}
 	opt := &query.ProcessorOptions{Condition: v.expr(x.cond)}
@@ -1138,6 +1194,9 @@ func spMinMax(x *spCtx, v *spVariant, b spBuilt, match []int, where string) stri
 		ok, err := rd.MayBeInFragment(uint32(f))
 		if err != nil {
 			return fmt.Sprintf("%s: min-max MayBeInFragment(%d): %v", where, f, err)
+		}
+		if !ok {
+			x.res.SkipNeg++
 		}
 		if in, _ := subset([]int{f}, match); in && !ok {
 			return fmt.Sprintf("%s: min-max on %s: fragment %d contains a matching row, MayBeInFragment says false (matching=%v)", where, sch[0].Name, f, match)
